@@ -4,8 +4,8 @@ C07 — Protocol enforced: no put/get without a valid reservation of one's own.
 import FsVerif.Proofs.PosExtra
 import FsVerif.Proofs.BufExtra
 import FsVerif.Proofs.Fleet
-import FsVerif.Model.SlotBelt
-import FsVerif.Model.CBelt
+import FsVerif.Proofs.SlotBelt3
+import FsVerif.Proofs.CBeltRoom
 namespace FsVerif.Props.C07
 open FsVerif PosStore
 
@@ -317,5 +317,60 @@ theorem cbelt_cancelGet_rejected (s : CBelt) (tid : Nat) (h : ¬ ∃ t ∈ s.get
       have := findTok_some ht
       exact h ⟨t, List.mem_append_right _ this.1, this.2⟩
     · rfl
+
+/-! … and a put WITH a granted reservation of the caller's own is accepted on both conveyors in every reachable state: the capacity
+invariant leaves room for every granted reservation (the second capacity test inside `_do_put` never fires) -/
+
+theorem slot_put_accepted (cfg : SlotCfg) (ops : List SlotBelt.Op) (p tid : Nat) (x : Item)
+    (h : ∃ t ∈ (SlotBelt.run (SlotBelt.init cfg) ops).putRes, t.id = tid ∧ t.proc = p) :
+    ((SlotBelt.run (SlotBelt.init cfg) ops).put p tid x).2 = .ok := by
+  have hr := (SlotBelt.run_inv ops _ (SlotBelt.init_inv cfg)).room
+  generalize SlotBelt.run (SlotBelt.init cfg) ops = s at h hr
+  obtain ⟨t0, ht0, hid, hpr⟩ := h
+  unfold SlotBelt.put
+  have hne : s.putRes.isEmpty = false := by
+    cases hq : s.putRes with
+    | nil => rw [hq] at ht0; cases ht0
+    | cons a b => rfl
+  simp only [hne, Bool.false_eq_true, ↓reduceIte]
+  split
+  · rename_i hnone
+    exfalso
+    have := List.find?_eq_none.mp hnone t0 ht0
+    simp [hid, hpr] at this
+  · rename_i t ht
+    have hm : t ∈ s.putRes := List.mem_of_find?_eq_some ht
+    have hl : (s.putRes.erase t).length + 1 = s.putRes.length := by
+      rw [List.length_erase_of_mem hm]; have := List.length_pos_of_mem hm; omega
+    have hroom := hr.room
+    simp only [SlotBelt.level] at hroom ⊢
+    have hlt : s.items.length + s.ready.length < s.cfg.cap := by omega
+    simp [hlt]
+
+theorem cbelt_put_accepted (cfg : CCfg) (ops : List CBelt.Op) (p tid : Nat) (x : Item)
+    (h : ∃ t ∈ (CBelt.run (CBelt.init cfg) ops).putRes, t.id = tid ∧ t.proc = p) :
+    ((CBelt.run (CBelt.init cfg) ops).put p tid x).2 = .ok := by
+  have hr := CBelt.run_roomC ops _ (CBelt.init_roomC cfg)
+  generalize CBelt.run (CBelt.init cfg) ops = s at h hr
+  obtain ⟨t0, ht0, hid, hpr⟩ := h
+  unfold CBelt.put
+  have hne : s.putRes.isEmpty = false := by
+    cases hq : s.putRes with
+    | nil => rw [hq] at ht0; cases ht0
+    | cons a b => rfl
+  simp only [hne, Bool.false_eq_true, ↓reduceIte]
+  split
+  · rename_i hnone
+    exfalso
+    have := List.find?_eq_none.mp hnone t0 ht0
+    simp [hid, hpr] at this
+  · rename_i t ht
+    have hm : t ∈ s.putRes := List.mem_of_find?_eq_some ht
+    have hl : (s.putRes.erase t).length + 1 = s.putRes.length := by
+      rw [List.length_erase_of_mem hm]; have := List.length_pos_of_mem hm; omega
+    have hroom := hr.room
+    simp only [CBelt.level] at hroom ⊢
+    have hlt : s.items.length + s.ready.length < s.cfg.cap := by omega
+    simp [hlt]
 
 end FsVerif.Props.C07
